@@ -124,7 +124,7 @@ def body(prop, args, seed, t0):
     broken = []
     build_ok, log = True, ""
     if not args.no_build:
-        build_ok, log = common.lake_build([f"OQ.Props.{prop}", "oqdriver"])
+        build_ok, log = common.lake_build(common.prop_modules(prop) + ["oqdriver"])
         if not build_ok:
             broken = common.broken_theorems(prop, log)
             if not broken:
